@@ -696,6 +696,21 @@ func c19Scenarios(tier string) []*world.Scenario {
 		out[len(out)-1].Name = fmt.Sprintf("C19/slow-reader/reply%d/d%d", len(rep), b)
 		out[len(out)-1].Family = "slow-reader"
 	}
+	// many medium replies to a slow reader: the outbound ring grows step by step while wrapped; fragments to a slow node
+	// beyond the 64 KiB static part
+	out = append(out, SlowClientManyReplies("C19", 14, 1000, b), SlowClientManyReplies("C19", 8, 2500, b))
+	{
+		sc := SlowBackendOverflow("C19", 5, 40000, b)
+		inner := sc.Check
+		sc.Check = func(w *world.World) []world.Violation {
+			vs := inner(w)
+			for i := range vs {
+				vs[i].Sig = "slow-reader-stream-corrupt"
+			}
+			return vs
+		}
+		out = append(out, sc)
+	}
 	// buffers released by a connection that died inside a message are reset before the next connection uses them
 	for _, kind := range []string{"backend-close", "backend-rst"} {
 		for _, cut := range []int{1, 3, 7} {
